@@ -8,8 +8,9 @@ import (
 )
 
 // Val is any interpreter value:
-//   Sc (scalar: bool or integer), Str, Ptr, Slice, Struct, Array, *Map, Iface,
-//   *ssa.Function, *ssa.Builtin, *Closure, Tuple, *MapIter, *ErrV
+//
+//	Sc (scalar: bool or integer), Str, Ptr, Slice, Struct, Array, *Map, Iface,
+//	*ssa.Function, *ssa.Builtin, *Closure, Tuple, *MapIter, *ErrV
 type Val interface{}
 
 // Sc is a boolean (W==0) or W-bit integer, concrete (T==nil) or symbolic.
